@@ -16,6 +16,8 @@ import sys
 import time
 import traceback
 
+_REAL_TIME = time.time      # (workers replace time.time by the virtual clock)
+
 VERIF = os.path.dirname(os.path.dirname(os.path.abspath(__file__)))
 
 PIPELINE_PROPS = ['C01', 'C02', 'C03', 'C04', 'C05', 'C08', 'C10', 'C13', 'C14', 'C16']
@@ -95,7 +97,7 @@ def _work(args):
            'status': {}, 'violations': [], 'harness': [], 'samples': [], 'faults': {}, 'nontrivial': 0,
            'modes': {}}
     for index in range(start, start + count):
-        if time.time() > deadline:
+        if _REAL_TIME() > deadline:
             break
         rng = rng_for(seed, prop, index)
         try:
@@ -106,7 +108,7 @@ def _work(args):
             continue
         agg['n'] += 1
         for vi, s2 in enumerate(variants):
-            if vi and time.time() > deadline + 20:
+            if vi and _REAL_TIME() > deadline + 20:
                 break          # (the variants of one scenario can be many: crash points, failing invocations)
             try:
                 out = fam.evaluate(prop, s2)
@@ -143,7 +145,7 @@ def shrink(prop, sc, target, known, budget=300, wall=60.0):
     """Greedy structural minimisation keeping the same violation class
     (property, oracle id, and the same known-finding classification)."""
     fam = family_of(prop)
-    t0 = time.time()
+    t0 = _REAL_TIME()
     want_known = match_known(known, prop, target)
     want_id = want_known['id'] if want_known else None
 
@@ -165,10 +167,10 @@ def shrink(prop, sc, target, known, budget=300, wall=60.0):
     cur_v = target
     used = 0
     improved = True
-    while improved and used < budget and time.time() - t0 < wall:
+    while improved and used < budget and _REAL_TIME() - t0 < wall:
         improved = False
         for cand in fam.shrink_candidates(cur):
-            if used >= budget or time.time() - t0 > wall:
+            if used >= budget or _REAL_TIME() - t0 > wall:
                 break
             used += 1
             vj = still(cand)
@@ -203,7 +205,7 @@ def replay_in_fresh_process(path):
 # ---------------------------------------------------------------------------
 
 def run_check(prop, tier, seed, budget_s, workers=None, max_runs=None, write_evidence=True):
-    t0 = time.time()
+    t0 = _REAL_TIME()
     fam = family_of(prop)
     known = load_known()
     workers = workers or min(16, os.cpu_count() or 4)
@@ -217,7 +219,7 @@ def run_check(prop, tier, seed, budget_s, workers=None, max_runs=None, write_evi
     with cf.ProcessPoolExecutor(max_workers=workers, mp_context=ctx) as ex:
         pending = set()
         while True:
-            while len(pending) < workers * 2 and time.time() < deadline and \
+            while len(pending) < workers * 2 and _REAL_TIME() < deadline and \
                     (max_runs is None or next_index < max_runs):
                 pending.add(ex.submit(_work, (prop, seed, tier, next_index, chunk, deadline)))
                 next_index += chunk
@@ -244,9 +246,9 @@ def run_check(prop, tier, seed, budget_s, workers=None, max_runs=None, write_evi
                 total['harness'].extend(a['harness'])
                 if len(total['samples']) < 2:
                     total['samples'].extend(a['samples'])
-            if time.time() > deadline + 120:
+            if _REAL_TIME() > deadline + 120:
                 break
-    search_wall = time.time() - t0
+    search_wall = _REAL_TIME() - t0
 
     # ---- judge, shrink, write replay files ---------------------------------
     rdir = 'replays' if write_evidence else os.path.join('replays', 'selftest')
@@ -287,7 +289,7 @@ def run_check(prop, tier, seed, budget_s, workers=None, max_runs=None, write_evi
                                           '' if ok else '  [WARNING: fresh-process replay did not reproduce: %s]' % msg[-200:]))
     for fid, (k, item, vj) in sorted(known_hits.items()):
         lines.append('KNOWN-FINDING: property=%s %s %s' % (prop, fid, k.get('what_fails', '')))
-    wall = time.time() - t0
+    wall = _REAL_TIME() - t0
 
     # ---- evidence ------------------------------------------------------------
     samples = []
